@@ -9,7 +9,7 @@ init <rb 0|1> <maxlog>                       ok
 begin / read / dread / prove / finish / overlay / odrop / sdrop / fdrop / root / seqn / witness   as in `api` (on the in-memory state)
 pwork <labels,|->                            ok <n> | bad-label <l> | bad-order        the labels of a fault-free run: sets the I/O work, checks the order
 pcall <commit|trycommit|ocommit|otrycommit|rollback> <id|n> <label:once|label:pers|-> [rblock=busy] [finish=fail]
-                                             <ok|err|busy> why=<…> poisoned=<0|1> root=<hex> seqn=<n> loglen=<n> failed=<label|->
+                                             <ok|err|busy> why=<…> poisoned=<0|1> root=<hex> seqn=<n> loglen=<n>
 preopen                                      <root> <seqn> loglen=<n> | corrupt          drop the handle, open the directory again
 pimages                                      the states a power loss could leave: `<root>/<seqn>` list
 save <name> / restore <name>                 ok                                          snapshot of the (healthy, reopened) handle
@@ -72,7 +72,7 @@ def showPOut (r : Res) (out : Out ByteArray ByteArray) : String :=
     (match pWhyOf out.trace with
      | "-" => (if r == .busy then "busy" else "refused")
      | w => w)
-  s!"{showRes r} why={why} poisoned={if out.st.poisoned then 1 else 0} root={hexOfBytes out.st.mem.root} seqn={out.st.mem.seqn} loglen={out.st.mem.log.length} failed={pFirstFailed out.trace}"
+  s!"{showRes r} why={why} poisoned={if out.st.poisoned then 1 else 0} root={hexOfBytes out.st.mem.root} seqn={out.st.mem.seqn} loglen={out.st.mem.log.length}"
 
 def pipelineStep (d : PDrv) (line : String) : PDrv × String :=
   match fields line with
